@@ -172,6 +172,8 @@ def jobs(tier):
     out.append({"name": "shape-errors", "kind": "shapes", "formats": b["formats"]})
     for k in b["kinds"][:3] if tier == "quick" else b["kinds"]:
         out.append({"name": "moves/%s" % k, "kind": "moves", "leaf": k})
+    for fmt in b["formats"]:
+        out.append({"name": "validators/%s" % fmt, "kind": "validators", "fmt": fmt})
     return out
 
 
@@ -183,12 +185,125 @@ def run_job(job, ctx):
         _paths(job, ctx)
     elif job["kind"] == "moves":
         _moves(job, ctx)
+    elif job["kind"] == "validators":
+        _validators(job, ctx)
     else:
         _shapes(job, ctx)
 
 
 def _case(job, only):
     return {"jobparams_full": {k: v for k, v in job.items() if k not in ("single", "only")}, "only": only, "job": job["name"]}
+
+
+class DomainError(Exception):
+    pass
+
+
+def _raisers():
+    """name -> callable raising when the value must be rejected (exception types a user's validator may well raise)"""
+    def keyerror():
+        return {"gold": 9}["bronze"]
+
+    def zerodiv():
+        return 1 // 0
+
+    def bare_value():
+        raise ValueError()
+
+    def bare_assert():
+        assert False
+
+    def index():
+        return [][3]
+
+    def custom():
+        raise DomainError("not in this domain")
+
+    def attribute():
+        return None.limit
+    return {"KeyError": keyerror, "ZeroDivisionError": zerodiv, "bare-ValueError": bare_value, "bare-AssertionError": bare_assert, "IndexError": index,
+            "custom-Exception": custom, "AttributeError": attribute}
+
+
+def _validators(job, ctx):
+    """rejections that come from user validators raising arbitrary exception types (some without a message): a field
+    validator that looks at a sibling field (so that it only fails in the whole-configuration pass that ends a load) and
+    one that fails at once; at a section, two levels down, in a list item and in a list of config types"""
+    import cincoconfig as cc
+    fmt = job["fmt"]
+    only = job.get("only")
+
+    def node(sch, raiser):
+        sch.tier = cc.StringField()
+        sch.limit = cc.IntField(default=1)
+
+        def cross(cfg, v, raiser=raiser):
+            if cfg.tier == "bronze":        # judged against the sibling: passes while the sibling is still unset
+                raiser()
+            return v
+
+        def direct(cfg, v, raiser=raiser):
+            if v == 7:
+                raiser()
+            return v
+        sch.rate = cc.IntField(validator=cross, name="Rate")
+        sch.seven = cc.IntField(validator=direct)
+    positions = [("svc", "svc"), ("svc.deep", "svc.deep"), ("members[1]", "members[1]"), ("types[0]", "types[0]")]
+    for rname, raiser in _raisers().items():
+        for pos, prefix in positions:
+            for which, bad_tree, leafpath, friendly in (("cross", {"rate": 3, "tier": "bronze"}, "rate", "Rate"), ("direct", {"seven": 7}, "seven", None)):
+                for route in ("load_tree", "loads", "ctor", "assign-map", "attr"):
+                    ident = [rname, pos, which, route]
+                    if only is not None and only != ident:
+                        continue
+                    s = cc.Schema()
+                    node(s.svc, raiser)
+                    node(s.svc.deep, raiser)
+                    item = cc.Schema()
+                    node(item, raiser)
+                    s.members = cc.ListField(item)
+                    tsch = cc.Schema()
+                    node(tsch, raiser)
+                    s.types = cc.ListField(cc.make_type(tsch, "SvcT"))
+                    good = {"rate": 1, "tier": "gold"}
+                    if pos == "svc":
+                        tree = {"svc": bad_tree}
+                    elif pos == "svc.deep":
+                        tree = {"svc": {"deep": bad_tree}}
+                    elif pos == "members[1]":
+                        tree = {"members": [good, bad_tree]}
+                    else:
+                        tree = {"types": [bad_tree, good]}
+                    cfg = s()
+                    ctx.transitions += 1
+                    if route == "load_tree":
+                        exc = attempt(lambda: cfg.load_tree(tree))
+                    elif route == "loads":
+                        exc = attempt(lambda: cfg.loads(cc.ConfigFormat.get(fmt).dumps(None, tree), fmt))
+                    elif route == "ctor":
+                        exc = attempt(lambda: s(**tree))
+                    elif route == "assign-map":
+                        k = list(tree)[0]
+                        exc = attempt(lambda: setattr(cfg, k, tree[k]))
+                    else:
+                        # the sibling is set first, then the offending field by attribute on the owning configuration
+                        base = {"svc": {"tier": "bronze", "deep": {"tier": "bronze"}}, "members": [dict(good), {"tier": "bronze"}], "types": [{"tier": "bronze"}, dict(good)]}
+                        if attempt(lambda: cfg.load_tree(base)) is not None:
+                            ctx.case(("validators", fmt) + tuple(ident), "validators:setup-rejected", False)
+                            continue
+                        owner = cfg
+                        for part in pos.replace("[", ".[").split("."):
+                            owner = owner[int(part[1:-1])] if part.startswith("[") else getattr(owner, part)
+                        exc = attempt(lambda: setattr(owner, leafpath, 3 if which == "cross" else 7))
+                    ctx.case(("validators", fmt) + tuple(ident), "validators:%s:%s" % (route, type(exc).__name__ if exc else "accepted"), True)
+                    want = prefix + "." + leafpath
+                    loose = None
+                    if route in ("load_tree", "loads", "ctor", "assign-map") and which == "cross" and "[" in pos:
+                        pass
+                    judge(ctx, job, ident, "C15|validators|%s|%s|%s|%s" % (rname, pos.split("[")[0], which, route),
+                          "validator raising %s at %s (%s) via %s" % (rname, pos, which, route), exc, want, friendly)
+    ctx.states += 1
+    ctx.traces += 1
 
 
 def attempt(fn):
